@@ -106,6 +106,19 @@ CHECKS = {
         "trusted_base": COMMON_TB,
         "assumptions": HOOK_ASSUME,
     },
+    "C18": {
+        "family": "mut", "level": "proof", "modules": ["Gk.Props.C18"],
+        "components": ["mut"],
+        "runs": lambda tier: [{"args": ["mut", "-n", {"quick": "300", "thorough": "30000", "widen": "5000"}[tier], "-len", "30"]}],
+        "rule": "the whole meta table (14 min labels x 14 max labels x with/without schedule-at-now x 5 original times "
+                "x 7 byte streams, incl. streams that are rejected or run dry) enumerated completely, plus random "
+                "metas (random magnitudes up to +-2^63, unit suffixes, garbage) and random byte streams; Load / Apply / "
+                "ParamMutatingRepository.AddTask run under recover with injected clock and reader and compared with "
+                "Gk.Mut; window / now / decode-total / no-panic monitors evaluated on the implementation's output",
+        "trusted_base": COMMON_TB + ["time.ParseDuration and strconv.ParseInt results are oracle inputs of the model",
+                                     "crypto/rand.Int is the mask-and-reject loop transcribed in Gk/Mut.lean (tied by comparing the number of bytes consumed and the result)"],
+        "assumptions": ["a panic caused by the injected reader running dry is not counted as a violation"],
+    },
     "C14": {
         "family": "repo", "level": "proof", "modules": ["Gk.Props.C14"],
         "components": ["repo", "heap", "snapshot", "memspec", "next", "find"],
